@@ -402,6 +402,23 @@ func wakeRound(kind string, round int) *Violation {
 	q := newQ(kind, 0)
 	var g group
 	g.start.Add(1)
+	if kind == "syncq" && round%3 == 2 {
+		// barging: a consumer, a producer pushing two items one after the other, and a TryPop that may take the first item
+		// before the signalled consumer runs. Whoever gets what: once everybody else has returned, the consumer must not
+		// sleep beside an item.
+		var got, stolen string
+		g.run(func() { got = q.pop() })
+		g.run(func() { q.add(1); runtime.Gosched(); q.add(2) })
+		g.run(func() { stolen = q.trypop() })
+		g.start.Done()
+		if w := g.wait(); w != "" {
+			if w == "parked" {
+				return &Violation{"Pop:consumer-parked-beside-item", "a consumer, two pushes and a barging TryPop (took " + stolen + "): both pushes returned, the consumer sleeps beside an item"}
+			}
+			return &Violation{"Pop:" + keyOf(w), w}
+		}
+		return checkResults("Pop", []string{got, stolen}, 2, map[string]bool{"none": true})
+	}
 	if round%2 == 0 {
 		// one consumer, one producer
 		var got string
